@@ -12,7 +12,9 @@ RULE = ("cases = generated object trees (depth <= 3, fan-out <= 3: rand_attr and
         "to path -> value and judged by the reference: a sub-object's own blocks are in force iff it and all its ancestors "
         "are random in the call, fields below a non-random sub-object are constants.  Oracle: free draws in the enumerated "
         "S_ref and SolveFailure iff empty; pinned probes (members, single-violation witnesses per flattened statement, "
-        "non-members).  non-trivial = two structurally identical siblings with different parent-level constraints or a "
+        "non-members); a 'segmented' sub-domain interleaves calls on the top object with calls made directly on its "
+        "random / non-random sub-objects (own block: foreach with if/else over own fields), list growth and assignments, "
+        "and judges every call against the blocks of exactly the objects random in it.  non-trivial = two structurally identical siblings with different parent-level constraints or a "
         "non-random sub-object whose own block is violated by its current values, and a call returned; distinct = distinct "
         "canonical case")
 ASSUMPTIONS = [
@@ -275,6 +277,192 @@ def run_nested(case):
     return [], info
 
 
+
+
+# ------------------------------------------------------------------------------------------------
+# sub-domain: segmented randomization - calls on the top object interleaved with calls made directly on one of its
+# sub-objects (random or non-random in the parent), whose own block holds a foreach with an if/else on its own fields
+SEG_SRC = """
+@vsc.randobj
+class Cfg(object):
+    def __init__(self, n):
+        self.mode = vsc.rand_bit_t(1)
+        self.lim = vsc.bit_t(3)
+        self.vals = vsc.rand_list_t(vsc.bit_t(3), sz=n)
+    @vsc.constraint
+    def cc(self):
+%s
+
+@vsc.randobj
+class Top(object):
+    def __init__(self, n0, n1):
+        self.t = vsc.rand_bit_t(2)
+        self.cfg = vsc.attr(Cfg(n0))
+        self.rc = vsc.rand_attr(Cfg(n1))
+    @vsc.constraint
+    def c0(self):
+        self.t != self.rc.mode
+"""
+
+SEG_FORMS = {
+    "F1": (["        with vsc.foreach(self.vals, idx=True) as i:",
+            "            self.vals[i] <= self.lim"],
+           [["foreach", "vals", "i", None, [["expr", ["bin", "<=", ["el", "vals", ["iv", "i"], None], ["f", "lim"]]]]]]),
+    "F2": (["        with vsc.foreach(self.vals, idx=True) as i:",
+            "            with vsc.if_then(self.mode == 1):",
+            "                self.vals[i] < 3",
+            "            with vsc.else_then:",
+            "                self.vals[i] > 4"],
+           [["foreach", "vals", "i", None, [["if", [[["bin", "==", ["f", "mode"], ["lit", 1]],
+                                                     [["expr", ["bin", "<", ["el", "vals", ["iv", "i"], None], ["lit", 3]]]]]],
+                                             [["expr", ["bin", ">", ["el", "vals", ["iv", "i"], None], ["lit", 4]]]]]]]]),
+    "F3": (["        with vsc.foreach(self.vals, idx=True) as i:",
+            "            self.vals[i] != i"],
+           [["foreach", "vals", "i", None, [["expr", ["bin", "!=", ["el", "vals", ["iv", "i"], None], ["iv", "i"]]]]]]),
+}
+
+
+@hyp.composite
+def segmented_cases(d):
+    forms = sorted(d.sample(["F1", "F2", "F3"], d.randint(1, 2)))
+    ops = [["call", "top", d.seed()]]
+    for _ in range(d.randint(2, 7)):
+        r = d.randint(0, 99)
+        if r < 55:
+            ops.append(["call", d.choice(["top", "cfg", "rc", "cfg"]), d.seed()])
+        elif r < 70:
+            ops.append(["append", d.choice(["cfg", "rc"]), d.randint(0, 7)])
+        elif r < 85:
+            ops.append(["set", d.choice(["cfg.mode", "rc.mode"]), d.randint(0, 1)])
+        else:
+            ops.append(["set", d.choice(["cfg.lim", "rc.lim"]), d.randint(0, 7)])
+    ops.append(["call", d.choice(["cfg", "rc"]), d.seed()])
+    return {"segmented": True, "forms": forms, "sizes": [d.randint(1, 2), d.randint(1, 2)], "lims": [d.randint(2, 7), d.randint(2, 7)], "ops": ops}
+
+
+def seg_source(case):
+    lines = []
+    for f in case["forms"]:
+        lines += SEG_FORMS[f][0]
+    return SEG_SRC % "\n".join(lines)
+
+
+def run_segmented(case):
+    from ..core.util import import_vsc
+    import enum as _enum
+    vsc = import_vsc()
+    info = {"returned": 0, "direct_after_parent": 0}
+    if not case.get("forms") or any(f not in SEG_FORMS for f in case["forms"]):
+        return [], info
+    src = seg_source(case)
+    text = src + "# Top(%d, %d); lims %s; ops %s" % (case["sizes"][0], case["sizes"][1], case["lims"], cjson(case["ops"]))
+
+    def Vs(kind, detail, extra):
+        return {"property": PROPERTY, "kind": kind, "detail": detail, "case": case, "text": text + "\n# " + extra}
+    reset_library()
+    try:
+        ns = {"vsc": vsc, "enum": _enum}
+        exec(compile(src, "<pvs-c08-seg>", "exec"), ns)
+        top = ns["Top"](case["sizes"][0], case["sizes"][1])
+        top.cfg.lim, top.rc.lim = case["lims"]
+    except Exception as e:
+        reset_library()
+        return [Vs("library_exception", "construction: " + exc_sig(e), repr(e)[:300])], info
+    subs = {"cfg": top.cfg, "rc": top.rc}
+    # model: current values
+    val = {"t": 0}
+    for sname, n, lim in (("cfg", case["sizes"][0], case["lims"][0]), ("rc", case["sizes"][1], case["lims"][1])):
+        val[sname + ".mode"] = 0
+        val[sname + ".lim"] = lim
+        val["#" + sname + ".vals"] = n
+        for j in range(n):
+            val["%s.vals[%d]" % (sname, j)] = 0
+    elem_t = {"kind": "bit", "w": 3, "signed": False}
+    block = [s_ for f in case["forms"] for s_ in SEG_FORMS[f][1]]
+
+    def read_all():
+        out = {"t": int(top.t)}
+        for sname, o in subs.items():
+            out[sname + ".mode"] = int(o.mode)
+            out[sname + ".lim"] = int(o.lim)
+            vs = [int(x) for x in o.vals]
+            out["#" + sname + ".vals"] = len(vs)
+            for j, v in enumerate(vs):
+                out["%s.vals[%d]" % (sname, j)] = v
+        return out
+    last_target = None
+    for step, op in enumerate(case["ops"]):
+        where = "step %d %s" % (step, cjson(op))
+        try:
+            if op[0] == "append":
+                n = val["#" + op[1] + ".vals"]
+                if n >= 3:
+                    continue
+                subs[op[1]].vals.append(op[2])
+                val["%s.vals[%d]" % (op[1], n)] = op[2]
+                val["#" + op[1] + ".vals"] = n + 1
+                continue
+            if op[0] == "set":
+                sname, fname = op[1].split(".")
+                setattr(subs[sname], fname, op[2])
+                val[op[1]] = op[2]
+                continue
+        except Exception as e:
+            reset_library()
+            return [Vs("library_exception", "%s: %s" % (op[0], exc_sig(e)), where + " raised %r" % (e,))], info
+        target = op[1]
+        if target == "top":
+            rnd_subs, stmts = ["rc"], [["expr", ["bin", "!=", ["f", "t"], ["f", "rc.mode"]]]]
+            rnames = ["t"]
+        else:
+            rnd_subs, stmts, rnames = [target], [], []
+        types = {"t": {"name": "t", "kind": "bit", "w": 2, "signed": False, "rand": True}}
+        for sname in ("cfg", "rc"):
+            types[sname + ".mode"] = {"name": sname + ".mode", "kind": "bit", "w": 1, "signed": False, "rand": True}
+            types[sname + ".lim"] = {"name": sname + ".lim", "kind": "bit", "w": 3, "signed": False, "rand": False}
+            types[sname + ".vals[]"] = elem_t
+            for j in range(val["#" + sname + ".vals"]):
+                k = "%s.vals[%d]" % (sname, j)
+                types[k] = dict(elem_t, name=k, rand=True)
+        for sname in rnd_subs:
+            stmts = stmts + [sem.prefix_stmt(s_, sname + ".") for s_ in block]
+            rnames += [sname + ".mode"] + ["%s.vals[%d]" % (sname, j) for j in range(val["#" + sname + ".vals"])]
+        rf = [types[n_] for n_ in rnames]
+        r = flat.enumerate_solutions(types, rf, dict(val), stmts, limit=1 << 13)
+        if r is None:
+            return [], info
+        allv, sols = r
+        obj = top if target == "top" else subs[target]
+        st, exc = flat.do_call(ns, obj, "randomize", None, op[2])
+        if st == "exc":
+            reset_library()
+            return [Vs("library_exception", "segmented: " + exc.sig, where + " raised %r" % (exc,))], info
+        now = read_all()
+        for k, v in val.items():
+            if k not in rnames and now.get(k) != v:
+                return [Vs("constant_changed", "a field that is not random in a call made on %s changed" % ("the top object" if target == "top" else "a sub-object"),
+                           where + ": %s changed from %s to %s" % (k, v, now.get(k)))], info
+        if target != "top" and last_target == "top":
+            info["direct_after_parent"] += 1
+        last_target = target
+        if st == "sf":
+            if sols:
+                return [Vs("spurious_solve_failure", "segmented", where + ": %d solutions exist; state %s" % (len(sols), cjson(val)))], info
+            for k in rnames:
+                val[k] = now[k]
+            continue
+        info["returned"] += 1
+        if not sols:
+            return [Vs("returned_on_unsat", "segmented", where + " returned %s" % cjson(now))], info
+        got = tuple(now[n_] for n_ in rnames)
+        if got not in set(sols):
+            return [Vs("own_block_not_enforced", "a call made directly on a sub-object (or on its parent) does not enforce exactly the blocks of the objects random in it",
+                       where + " returned %s (state before the call %s)" % (cjson({n_: now[n_] for n_ in rnames}), cjson(val)))], info
+        for k in rnames:
+            val[k] = now[k]
+    return [], info
+
+
 def text_of(case):
     src = render.program_source(case["prog"]) + "# top object: %s()" % case["prog"]["top"]
     types, _, _ = tree.flatten(case["prog"])
@@ -315,6 +503,8 @@ def classify(prog, types, ns):
 def run_case(case):
     if case.get("nested"):
         return run_nested(case)
+    if case.get("segmented"):
+        return run_segmented(case)
     prog = case["prog"]
     try:
         types, stmts, ns_nodes = tree.flatten(prog)
@@ -426,6 +616,13 @@ def body(case, acc):
         for f in case["forms"]:
             acc.label("nested form " + f)
         return vios
+    if case.get("segmented"):
+        acc.case(case, bool(info.get("returned", 0) > 0 and info.get("direct_after_parent", 0) > 0), sample=seg_source(case))
+        acc.label("segmented randomization (calls on sub-objects)")
+        acc.label("direct call on a sub-object right after a call on its parent", info.get("direct_after_parent", 0))
+        for f in case["forms"]:
+            acc.label("segmented form " + f)
+        return vios
     nt = info.get("returned", 0) > 0 and (info.get("siblings") or info.get("nonrand_violated"))
     acc.case(case, bool(nt), sample=text_of(case))
     prog = case["prog"]
@@ -447,11 +644,12 @@ def body(case, acc):
 def shards(tier):
     return [{"i": i, "n": 150 if tier == "quick" else 5000} for i in range(12)] + \
         [{"kind": "subclass", "i": 0, "n": 150 if tier == "quick" else 3000}] + \
-        [{"kind": "nested", "i": i, "n": 40 if tier == "quick" else 2500} for i in range(3)]
+        [{"kind": "nested", "i": i, "n": 40 if tier == "quick" else 2500} for i in range(3)] + \
+        [{"kind": "segmented", "i": i, "n": 60 if tier == "quick" else 2500} for i in range(2)]
 
 
 def run_shard(spec, seed, tier, acc):
-    strat = {"subclass": subclass_cases, "nested": nested_cases}.get(spec.get("kind"), cases)()
+    strat = {"subclass": subclass_cases, "nested": nested_cases, "segmented": segmented_cases}.get(spec.get("kind"), cases)()
     hyp.drive(strat, body, seed, spec["n"], acc)
 
 
